@@ -85,6 +85,34 @@ func pathExists(abs string) bool {
 
 func cachePath() string { return root + "/.spok/cache.json" }
 
+// cacheSnap is the cache as it is on disk at one moment.
+type cacheSnap struct {
+	dir, file bool
+	content   string
+}
+
+func snapshotCache() cacheSnap {
+	return cacheSnap{dir: pathExists(root + "/.spok"), file: pathExists(cachePath()), content: readContent(cachePath())}
+}
+
+// restoreCache puts the cache back as it was (bypassing the write hooks of the model).
+func restoreCache(c cacheSnap) {
+	switch {
+	case !c.dir:
+		delPath(".spok")
+	case !c.file:
+		delPath(".spok/cache.json")
+	case sym.Symbolic():
+		if e, ok := vfs.Files[cachePath()]; ok {
+			e.Content = c.content
+		} else {
+			vfs.AddFile(cachePath(), c.content)
+		}
+	default:
+		os.WriteFile(cachePath(), []byte(c.content), 0o644)
+	}
+}
+
 func oldTime() time.Time { return time.Date(2001, 1, 1, 0, 0, 0, 0, time.UTC) }
 
 // ---- native emulation of a kill during a write of the cache file -----------------------------------
